@@ -57,16 +57,32 @@ def run_call(lexer, parser, text, gate=None):
         else:
             out = ["ok", project.proj(r)]
     except ex.ArgumentCountException as e:
-        out = ["argc", e.function_name, e.exp_min_args, e.exp_max_args, e.n_args_given]
+        out = ["argc", e.function_name, e.exp_min_args, e.exp_max_args, e.n_args_given, _payload(e)]
     except ex.UnknownFunctionException as e:
-        out = ["unknown", e.function_name]
+        out = ["unknown", e.function_name, _payload(e)]
     except ex.ParsingException as e:
-        out = ["syntax", getattr(e.token, "type", None), getattr(e.token, "index", None), bool(e.eof)]
+        out = ["syntax", getattr(e.token, "type", None), getattr(e.token, "index", None), bool(e.eof), _payload(e)]
     except ex.TokenizingException as e:
-        out = ["token", getattr(e.token, "index", None)]
+        out = ["token", getattr(e.token, "index", None), _payload(e)]
     except Exception as e:  # noqa
         out = ["foreign", type(e).__name__, str(e)[:120]]
     return out, tap.types
+
+
+def _payload(e):
+    """everything else an error reports (message, further attributes): part of the outcome a caller can observe, so it
+    has to be as history-independent as the rest"""
+    return [str(e)[:300], sorted((k, repr(v)[:120]) for k, v in vars(e).items() if k != "token")]
+
+
+def failed_rewriter(lexer, parser):
+    """a rewriter construction that fails half-way (one broken alias definition) on the caller's instances"""
+    from odata_query.rewrite import AliasRewriter
+    try:
+        AliasRewriter({"ok": "author/name", "bad": "author/ eq", "late": "x/y"}, lexer, parser)
+        return "constructed"
+    except Exception as e:  # noqa
+        return type(e).__name__
 
 
 def fresh_instances():
@@ -81,7 +97,7 @@ def spec_matches(spec, got):
     if spec[0] == "unknown":
         return got[:2] == ["unknown", U(spec[1])]
     if spec[0] == "argc":
-        return got == ["argc", U(spec[1]), spec[2], spec[3], spec[4]]
+        return got[:5] == ["argc", U(spec[1]), spec[2], spec[3], spec[4]]
     if spec[0] in ("syntax", "token"):
         # lexing is lazy: a text with both a lexical and a syntactic error may report either
         return got[0] in ("syntax", "token")
@@ -184,7 +200,7 @@ def run(ctx):
             if out != fo or types != ft:
                 what = "outcome" if out != fo else "token-stream"
                 ctx.violation({"kind": "history-dependent-" + what, "how": how, "probe": c["probe"], "position": ci + 1,
-                               "after": [h["probe"] for h in history[:ci]] if how == "sequential" else "interleaved"},
+                               "after": [h["probe"] for h in history[:ci]] if how != "interleaved" else "interleaved"},
                               {"history": history, "call": ci + 1, "text": texts[c["probe"] - 1],
                                "got": str(out)[:300], "fresh": str(fo)[:300], "types": types[:40], "fresh_types": ft[:40]})
 
@@ -207,6 +223,14 @@ def run(ctx):
         if len(r["calls"]) >= 2:
             ctx.nontriv(r["calls"])
             ctx.sample({"sequential": [[c["lex"], c["par"], texts[c["probe"] - 1]] for c in r["calls"]]}, cap=3)
+        # the same history after another component failed half-way on these instances (a rewriter with a broken alias)
+        inst = fresh_instances()
+        c0 = r["calls"][0]
+        ctx.notes.setdefault("failed_rewriter_outcomes", {})
+        fr = failed_rewriter(inst[c0["lex"]], inst[c0["par"]])
+        ctx.notes["failed_rewriter_outcomes"][fr] = ctx.notes["failed_rewriter_outcomes"].get(fr, 0) + 1
+        results = [run_call(inst[c["lex"]], inst[c["par"]], texts[c["probe"] - 1]) for c in r["calls"]]
+        judge(r["calls"], results, "after-failed-rewriter")
     # 2. interleaved schedules on disjoint instances
     res = tlc.run("MC_C20", constants={"MaxCalls": 2, "Sequential": "FALSE", "MaxInFlight": 2,
                                        "MaxSwitches": 2 if quick else 3,
